@@ -6,7 +6,7 @@ usage: tools/seeded.py intake <src_dir> <name>     # e.g. /tmp/seed/C14/seed_out
 """
 import json, os, shutil, subprocess, sys, time
 
-REPO, VERIF, SCRATCH = "/repo", "/verif", "/tmp/verif-seeded"
+REPO, VERIF, SCRATCH = "/repo", os.path.dirname(os.path.dirname(os.path.abspath(__file__))), "/tmp/verif-seeded-%d" % os.getpid()
 PROPS = ["C02", "C03", "C04", "C10", "C14", "C16", "C18"]
 
 
